@@ -218,6 +218,15 @@ func (c *Ctx) Fail(key, format string, a ...any) {
 		c.knownHit[key] = txt
 	}
 	c.viol = append(c.viol, Violation{Key: key, Detail: detail, Known: known})
+	// written at once as well: a fatal error of the runtime later in the run (out of memory, checkptr, a crash
+	// in a worker goroutine) must not take the violations already observed with it
+	if c.Out != "" && len(c.viol) <= 200 {
+		if f, err := os.OpenFile(c.Out+".viol.jsonl", os.O_APPEND|os.O_CREATE|os.O_WRONLY, 0o644); err == nil {
+			b, _ := json.Marshal(Violation{Key: key, Detail: detail, Known: known})
+			f.Write(append(b, '\n'))
+			f.Close()
+		}
+	}
 }
 
 // Check is Eval + conditional Fail; detail is only built on failure.
